@@ -1,4 +1,5 @@
 import Gallia.Proofs.Lemmas.DbLog
+import Gallia.Proofs.Lemmas.DbLogMulti
 import Gallia.Gen.C11Tables
 /-
   C11 — Every exchange is recorded once, in order and byte-exact, in the scan database.
@@ -238,6 +239,90 @@ theorem nothing_after_cancel (h : List Exchange) (s1 s2 : List Choice) (hr1 : Ch
   rw [this]
   simp [step]
 
+/-! ### several producers behind the client mutex (scanner task, further scanner coroutines, cyclic tester-present task)
+
+  `mexec (MSys.init progs) sched`: any number of tasks, each with its own program of exchanges; `sched` is *any* list of
+  choices - time passing, a task entering `ECU._request`, the mutex holder's exchange ending, a cancellation delivered
+  to any task in any phase (idle, waiting for the mutex, on the wire), steps and write failures of the database writer. -/
+
+/-- **rows of several producers, every schedule.**  After `disconnect()` the table holds exactly one row per completed
+    logged call, in the order in which the calls completed (= the order in which the mutex was released, see
+    `completed_in_transmission_order`), each with the request / reply / exception bytes of its exchange and with the
+    client-side state folded over all calls completed before it - whichever task they belonged to. -/
+theorem rows_order_multi (progs : List (List Exchange)) (sched : List MChoice) :
+    afterDisconnectM (mexec (MSys.init progs) sched) = callRows .init (mexec (MSys.init progs) sched).calls :=
+  ((MRows.init progs).exec sched).rows
+
+/-- **completion order = transmission order.**  The sequence of (task, request) in the order the client mutex was granted
+    - the order of the exchanges on the wire - is the sequence of the completed calls that had been granted the mutex, in
+    completion order, followed by the one exchange that is on the wire now (if any).  So a call never completes (and never
+    writes its row) before a call that was transmitted earlier. -/
+theorem completed_in_transmission_order (progs : List (List Exchange)) (sched : List MChoice) :
+    (mexec (MSys.init progs) sched).wire =
+      ((mexec (MSys.init progs) sched).calls.filter (·.granted)).map (fun c => (c.task, c.ex.req)) ++
+        (mexec (MSys.init progs) sched).onWire :=
+  ((MLock.init progs).exec sched).wire
+
+/-- at most one task is on the wire -/
+theorem mutex_exclusive (progs : List (List Exchange)) (sched : List MChoice) (i j : Nat) (ti tj : Task) (a b : Nat)
+    (hi : (mexec (MSys.init progs) sched).tasks[i]? = some ti) (hpi : ti.phase = .holding a)
+    (hj : (mexec (MSys.init progs) sched).tasks[j]? = some tj) (hpj : tj.phase = .holding b) : i = j := by
+  have h := (MLock.init progs).exec sched
+  have h1 := h.exclusive i ti a hi hpi
+  have h2 := h.exclusive j tj b hj hpj
+  rw [h1] at h2
+  exact Option.some.inj h2
+
+/-- **rows in transmission order.**  When every completed call was logged and none was cancelled before it got the
+    mutex, the request column of the table, read in id order, followed by the request now on the wire, *is* the sequence
+    of requests in the order they were transmitted. -/
+theorem requests_in_transmission_order (progs : List (List Exchange)) (sched : List MChoice)
+    (hall : ∀ c ∈ (mexec (MSys.init progs) sched).calls, c.ex.implicitOn = true ∧ c.granted = true) :
+    (afterDisconnectM (mexec (MSys.init progs) sched)).map (·.req) ++ (mexec (MSys.init progs) sched).onWire.map (·.2) =
+      (mexec (MSys.init progs) sched).wire.map (·.2) := by
+  rw [rows_order_multi, completed_in_transmission_order]
+  generalize (mexec (MSys.init progs) sched).calls = cs at hall
+  generalize (mexec (MSys.init progs) sched).onWire = ow
+  have key : ∀ (st : EcuState) (cs : List Call), (∀ c ∈ cs, c.ex.implicitOn = true ∧ c.granted = true) →
+      (callRows st cs).map (·.req) = ((cs.filter (·.granted)).map (fun c => (c.task, c.ex.req))).map (·.2) := by
+    intro st cs
+    induction cs generalizing st with
+    | nil => intro _; rfl
+    | cons c cs ih =>
+      intro h
+      have hc := h c (by simp)
+      have := ih (nextState st c.ex) (fun c' h' => h c' (by simp [h']))
+      simp [callRows, hc.1, hc.2, this, mkRow]
+  simp [key _ cs hall]
+
+/-- the row of a call holds the client's view of the ECU state before that call: `update_state` folded over the replies
+    of all calls - of every task - completed before it -/
+theorem multi_state_is_pre_state (st : EcuState) (pre post : List Call) (c : Call) (himp : c.ex.implicitOn = true) :
+    callRows st (pre ++ c :: post) =
+      callRows st pre ++ mkRow (callState st pre) c.sendT c.doneT c.ex ::
+        callRows (nextState (callState st pre) c.ex) post := by
+  rw [callRows_append]
+  simp [callRows, himp]
+
+/-- send time not after receive time in every row, whatever the interleaving (the send time is taken before the task
+    queues on the mutex, the receive time when its exchange ends) -/
+theorem multi_send_le_recv (progs : List (List Exchange)) (sched : List MChoice) :
+    ∀ r ∈ afterDisconnectM (mexec (MSys.init progs) sched), ∀ t, r.recvT = some t → r.sendT ≤ t := by
+  rw [rows_order_multi]
+  exact callRows_times _ _ ((MTime.init progs).exec sched).calls
+
+/-- a task cancelled while it *waits* for the mutex leaves a row without reply and exception (its `finally` runs), although
+    its request was never transmitted: the call is in `calls` with `granted = false` and not in `wire` -/
+theorem cancelled_waiter_row (s : MSys) (i : Nat) (t : Task) (t0 : Nat) (e : Exchange) (rest : List Exchange)
+    (ht : s.tasks[i]? = some t) (hs : t.stopped = false) (hp : t.phase = .waiting t0) (htd : t.todo = e :: rest) :
+    (mstep s (.cancelTask i)).calls = s.calls ++ [⟨i, { e with out := .cancelled }, t0, s.clock, false⟩] ∧
+    (mstep s (.cancelTask i)).wire = s.wire ∧
+    (mstep s (.cancelTask i)).toWriter.all =
+      s.toWriter.all ++ (if e.implicitOn then [mkRow s.ecu t0 s.clock { e with out := .cancelled }] else []) := by
+  simp only [mstep, ht, hs, hp, htd]
+  refine ⟨by simp [logCall_calls], by simp [logCall_wire], ?_⟩
+  simp [logCall_all]
+
 /-! ### tables regenerated from the working tree -/
 
 /-- the limits the model's `classify` uses are those of the live response classes -/
@@ -264,6 +349,27 @@ theorem anchors_hold :
     `finally` of `ECU._request` has no suspension point before the row is queued (what `Choice.prod` models) -/
 theorem queue_unbounded :
     Gen.C11Tables.queueMaxsize = 0 ∧ Gen.C11Tables.insertAwaits = ["self._execute_queue.put"] := by decide
+
+/-- the `finally` of `ECU._request` awaits nothing but `insert_scan_result` (whose only await is the non-suspending `put`, see
+    `queue_unbounded`) and `update_state` (which awaits nothing); the `try` body awaits nothing but the inner `_request`, which
+    is exactly `async with self.mutex: return await self.request_unsafe(...)` on an `asyncio.Lock`; the send time is taken
+    before: "exchange ends, mutex released, row queued, state updated" is one step of the task (`MChoice.finish`) -/
+theorem finally_is_atomic :
+    Gen.C11Tables.tryAwaits = ["super()._request"] ∧
+    Gen.C11Tables.finallyAwaits = ["self.db_handler.insert_scan_result", "self.update_state"] ∧
+    Gen.C11Tables.updateStateAwaits = [] ∧ Gen.C11Tables.sendTimeBeforeTry = true ∧
+    Gen.C11Tables.requestUnderMutex = true ∧ Gen.C11Tables.mutexIsAsyncioLock = true := by decide
+
+/-- the writer task of the working tree is the modelled one: it awaits `get`, `execute`, `commit` in this order; on
+    `OperationalError` it only logs and repeats in place (inside a `while True` left by `break` after the commit, no `put`
+    back into the queue); the `execute` is skipped once it has succeeded; `task_done()` sits in the `finally` of the per-row
+    `try`; `disconnect()` is `join`, cancel and await the writer, `commit`, `close` -/
+theorem writer_retries_in_place :
+    Gen.C11Tables.writerAwaits = ["self._execute_queue.get", "self.connection.execute", "self.connection.commit"] ∧
+    Gen.C11Tables.writerOnOperationalError = ["logger.warning"] ∧ Gen.C11Tables.writerRetriesInPlace = true ∧
+    Gen.C11Tables.writerExecuteGuard = "not executed / executed = True" ∧ Gen.C11Tables.writerTaskDoneInFinally = true ∧
+    Gen.C11Tables.disconnectAwaits =
+      ["self._execute_queue.join", "self._executor_task", "self.connection.commit", "self.connection.close"] := by decide
 
 /-- with the unbounded queue `put` never finds the queue full, in any reachable or unreachable state ... -/
 theorem put_never_suspends (s : Sys) : queueFull Gen.C11Tables.queueMaxsize s = false := by
@@ -319,5 +425,37 @@ example : afterInterruptedDisconnect (runAll [ex1, ex2]) ≠ specRows .init 0 [e
 example :
     afterDisconnect (cancelAtPut 1 (exec (Sys.init [ex1, ex4]) [.prod])) ≠ specRows .init 0 [ex1, ex4] ∧
     (cancelAtPut 1 (exec (Sys.init [ex1, ex4]) [.prod])).done = [ex1, ex4] := by decide
+
+/-! #### several producers: witnesses -/
+
+private def mx1 : Exchange := ⟨[0x10, 0x03], .ret [0x50, 0x03], false, true, 0, 0⟩
+private def mx2 : Exchange := ⟨[0x3E, 0x00], .ret [0x7E, 0x00], false, true, 0, 0⟩
+private def mx3 : Exchange := ⟨[0x22, 0xF1, 0x90], .ret [0x62, 0xF1, 0x90, 0x01], true, true, 0, 0⟩
+
+/-- three tasks: the scanner (task 0) is on the wire, the tester-present task (1) and a second scanner (2) queue behind it;
+    the tester-present task is cancelled while it waits; a write fails twice.  Rows in completion order, the state column of
+    the last row is the session set by the first exchange. -/
+example :
+    let s := mexec (MSys.init [[mx1], [mx2], [mx3]])
+      [.tick 1, .call 0, .call 1, .call 2, .tick 2, .cancelTask 1, .finish 0, .w .get, .w .retry, .w .commitFail, .tick 1, .finish 2]
+    afterDisconnectM s =
+      [ ⟨.implicit, ⟨1, none⟩, [0x3E, 0x00], 1, none, none, none⟩,
+        ⟨.implicit, ⟨1, none⟩, [0x10, 0x03], 1, some [0x50, 0x03], some 3, none⟩,
+        ⟨.emphasized, ⟨3, none⟩, [0x22, 0xF1, 0x90], 1, some [0x62, 0xF1, 0x90, 0x01], some 4, none⟩ ] ∧
+    s.wire = [(0, [0x10, 0x03]), (2, [0x22, 0xF1, 0x90])] ∧ s.retries = 2 := by decide
+
+/-- the hypotheses of `requests_in_transmission_order` are satisfiable by a run with contention -/
+example :
+    let s := mexec (MSys.init [[mx1, mx3], [mx2]]) [.call 0, .call 1, .finish 0, .call 0, .finish 1]
+    (∀ c ∈ s.calls, c.ex.implicitOn = true ∧ c.granted = true) ∧ s.calls.length = 2 ∧ s.onWire = [(0, [0x22, 0xF1, 0x90])] := by
+  decide
+
+/-- **why nothing may suspend between the release of the mutex and the `put`** (obligation `finally_is_atomic` below): if
+    task 0 were suspended there while task 1 - already queued on the mutex - transmits and completes, the rows would be in
+    the order 1, 0 although the wire saw 0, 1 -/
+example :
+    let s := finishWithGap (mexec (MSys.init [[mx1], [mx2]]) [.call 0, .call 1]) 0 [.finish 1]
+    s.wire = [(0, [0x10, 0x03]), (1, [0x3E, 0x00])] ∧
+    (afterDisconnectM s).map (·.req) = [[0x3E, 0x00], [0x10, 0x03]] := by decide
 
 end Gallia.C11
